@@ -31,6 +31,8 @@ def sweeps(col, pp, mons, hdepth_quick=3, hdepth_thorough=4, track_path=False):
         # gain or loss
         e1.Explorer(pp, v, e1.W_DEFAULT, e1.seed_history_P(), alphabets.geometry_sweep()[1::2], mons, 'G/S0/repeat', track_path,
                     repeat=True).run(1, col)
+        e1.Explorer(pp, v, e1.W_DEFAULT, e1.seed_history_P() + [alphabets.T('A', 'Q', '30 uL')], alphabets.duplicate_list_sweep(),
+                    mons, 'D/duplicate-lists', track_path).run(1, col)
         # two versions of one plate: distinct objects carrying the same name are different plates
         wv = dict(e1.W_DEFAULT, Pv=('plate', '500 uL', 2, 3, 'P'))
         hv = e1.seed_history_P() + [alphabets.T('B', ['Pv', f"({r}, {c})"], f"{10 * (r + c)} uL") for r in (1, 2) for c in (1, 2, 3)]
